@@ -252,17 +252,6 @@ def discharge(check_id, job, pr, out, replay_kind, describe=None, timeout_ms=400
                     v = None
                 else:
                     info["solver"] = (info.get("winner") or info["solver"]) + " [abstraction + lemmas]"
-            if v is None and tries == 0 and len(cons) > 120 and acons is None:
-                # focused attempt: only the constraints whose symbols all occur in the goal (sound: a subset of the assumptions);
-                # on long paths the rest is about other candidates and only costs case splits
-                gv = _symbols(goal)
-                focus = [c for c in (light if light is not None else cons) if _symbols(c) <= gv]
-                v, model, info = solve.decide(focus, z3.Not(goal), pr.inputs, timeout_ms=2000, use_external=False)
-                out.d["queries"] += 1
-                if v != "unsat":
-                    v = None
-                else:
-                    info["solver"] += " [constraints over the goal's symbols only]"
             if v is None and light is not None and tries == 0 and out.d.get("inproc_unknown_streak", 0) < 3:
                 # sound shortcut: fewer assumptions (no enclosure tables); unsat here implies unsat with them
                 v, model, info = solve.decide(light, z3.Not(goal), pr.inputs, timeout_ms=min(timeout_ms, 3000),
@@ -283,6 +272,16 @@ def discharge(check_id, job, pr, out, replay_kind, describe=None, timeout_ms=400
                     out.d["inproc_unknown_streak"] = streak + 1
                 else:
                     out.d["inproc_unknown_streak"] = 0
+                if v == "unknown" and tries == 0 and acons is None:
+                    # last resort: only the constraints whose symbols all occur in the goal (sound: a subset of the assumptions);
+                    # on very long paths the rest is about other candidates and only costs case splits
+                    gv = _symbols(goal)
+                    focus = [c for c in (light if light is not None else cons) if _symbols(c) <= gv]
+                    v2, _, info2 = solve.decide(focus, z3.Not(goal), pr.inputs, timeout_ms=5000, ext_timeout_s=60)
+                    out.d["queries"] += 1
+                    if v2 == "unsat":
+                        v, info = "unsat", info2
+                        info["solver"] = (info.get("winner") or info["solver"]) + " [constraints over the goal's symbols only]"
             out.d["solver_time"] += time.time() - t0
             out.d.setdefault("time_by_name", {})
             out.d["time_by_name"][name] = out.d["time_by_name"].get(name, 0.0) + time.time() - t0
@@ -290,11 +289,13 @@ def discharge(check_id, job, pr, out, replay_kind, describe=None, timeout_ms=400
                 if tries == 0:
                     out.d["discharged"] += 1
                     done_ok.add(name)
-                    out.sample({"obligation": name, "path": pr.index, "decisions": len(pr.decisions),
-                                "verdict": "unsat", "solver": info.get("winner") or info["solver"],
-                                "time_s": info["time_s"], "job": job,
-                                "goal_term": str(goal).replace("\n", " ")[:400],
-                                "path_condition_size": len(pr.pc), "side_constraints": len(pr.side) + len(pr.heavy)})
+                    if len(out.d["samples"]) < 4:     # (the pretty-printer is slow on large terms: only for the samples kept)
+                        z3.set_option(max_depth=6, max_args=8, max_lines=12)
+                        out.sample({"obligation": name, "path": pr.index, "decisions": len(pr.decisions),
+                                    "verdict": "unsat", "solver": info.get("winner") or info["solver"],
+                                    "time_s": info["time_s"], "job": job,
+                                    "goal_term": str(goal).replace("\n", " ")[:400],
+                                    "path_condition_size": len(pr.pc), "side_constraints": len(pr.side) + len(pr.heavy)})
                     verdict = "unsat"
                 else:
                     verdict = "unreproduced"
